@@ -378,7 +378,7 @@ pub fn history(cx: &mut Ctx, family: &str, maxops: u64) {
                     let mut keys: Vec<u64> = Vec::new();
                     for _ in 0..n {
                         let k = fresh_key(cx, s, &h);
-                        if !keys.contains(&k) || cx.rng.chance(1, 3) {
+                        if !keys.contains(&k) {
                             keys.push(k);
                         }
                     }
